@@ -156,6 +156,17 @@ def run(prop, cfg, tier, seed, replay):
         conf["recovery"] = {"checked": rconf.get("checked", 0), "mismatches": len(rconf.get("mismatches", [])), "skipped": len(rconf.get("skipped", []))}
         if rconf.get("mismatches"):
             problems.append(f"recovery trace conformance: {len(rconf['mismatches'])} hook log(s) of the real client are not traces of the Recovery LTS, first: {rconf['mismatches'][0][:400]}")
+    # and for the ConnThreads view (T3, round 2): every connection's hook log (reads, enqueues, drops, the three goroutine exits) must be a
+    # weak trace of the proved ConnThreads LTS
+    if ok and cfg.get("conformance_conn") and batches:
+        import conformance_conn
+        try:
+            cconf = conformance_conn.check(batches[0]["results"], L.LEAN)
+        except Exception as e:
+            cconf = {"checked": 0, "mismatches": ["connection replay could not be run: " + str(e)[:300]]}
+        conf["conn"] = {"checked": cconf.get("checked", 0), "mismatches": len(cconf.get("mismatches", [])), "skipped": len(cconf.get("skipped", []))}
+        if cconf.get("mismatches"):
+            problems.append(f"connection trace conformance: {len(cconf['mismatches'])} connection log(s) of the real client are not traces of the ConnThreads LTS, first: {str(cconf['mismatches'][0])[:400]}")
     # search when something broke and no failing history is known: the thorough batch
     if problems and not fails and tier == "quick" and ok:
         b3 = run_batch(prop, "thorough", seed)
@@ -217,8 +228,9 @@ def run(prop, cfg, tier, seed, replay):
         "proof_failed": pr["failed"],
         "evaluations": len(res), "distinct_nontrivial": distinct,
         "rule": cfg["rule"], "samples": samples or ["(no scenario ran)"],
-        "traces_validated_against_impl": conf.get("checked", 0) + (conf.get("recovery") or {}).get("checked", 0),
+        "traces_validated_against_impl": conf.get("checked", 0) + (conf.get("recovery") or {}).get("checked", 0) + (conf.get("conn") or {}).get("checked", 0),
         "recovery_traces_replayed": (conf.get("recovery") or {}).get("checked", 0),
+        "connection_traces_replayed": (conf.get("conn") or {}).get("checked", 0),
         "monitor_verdicts": nver, "failing_histories": len(fails), "scenario_distribution": dist,
         "conformance_mismatches": len(conf.get("mismatches", [])),
         "model_scripts": cfg.get("_model_oracle", {}),
